@@ -159,3 +159,18 @@ CHECKS["C18"] = {
         {"pkg": SERVER, "run": "^TestVerif_C18_Store$", "checks": {"quick": 1200, "thorough": 120000}, "shards": {"thorough": 16}, "timeout": {"quick": 300}},
     ],
 }
+
+CHECKS["C05"] = {
+    "level": "exploration",
+    "exhaustive_claim": True,
+    "technique": "exhaustive enumeration of every single and every pair of cut positions for short exchanges + rapid-generated long exchanges with random segmentation/coalescing and generated admission orders of concurrent writers' underlying writes (ticketed network, synctest bubble); list model oracle; oversize records crafted on the raw connection",
+    "level_text": "common.TLSConn and common.WebSocketConn (obtained through a real gorilla Upgrade, both directions) are driven over a network that delivers exactly the generated segments; every Read must return exactly the next whole message of some writer, per-writer order preserved, nothing lost; the order in which concurrent writers' underlying Write calls reach the wire is a generated permutation, so a split header/body write interleaves deterministically; records declaring more than the reader's buffer must yield an error.",
+    "level_note": "WebSocket concurrent-writer cases run with free-running goroutines inside the bubble (a goroutine parked while holding the connection's write mutex cannot be scheduled deterministically under synctest).",
+    "rule": "Cuts: 6 short exchanges (<=3 messages of 0..130 bytes) x {TLS, WS client->server, WS server->client} x every pair 1<=a<=b<total of cut positions (enumerated). Sampled: rapid-drawn 1..8 writers x 1..6 messages of length 0..16640 (and >16640 for refused writes), <=12 cyclic segment sizes incl. 0=everything, admission schedule of <=40 entries. Oversize: declared length buffer+{1,2,100,45055}. Non-trivial = a message arrived in >=2 segments or >=2 messages arrived in one segment; distinct = distinct (exchange, cut pair) resp. scenarios.",
+    "assumptions": ["gorilla/websocket framing is correct"],
+    "jobs": [
+        {"pkg": COMMON, "run": "^TestVerif_C05_Cuts$", "timeout": {"quick": 600}},
+        {"pkg": COMMON, "run": "^TestVerif_C05_Sampled$", "checks": {"quick": 1500, "thorough": 200000}, "shards": {"thorough": 16}, "timeout": {"quick": 600}},
+        {"pkg": COMMON, "run": "^TestVerif_C05_Oversize$", "checks": {"quick": 300, "thorough": 20000}, "shards": {"thorough": 4}},
+    ],
+}
